@@ -467,3 +467,16 @@ Proof.
   { simpl. rewrite Hwf. simpl. eapply model_steps_corr; eauto. }
   split; [exact Hc|apply corr_implies_pred; exact Hc].
 Qed.
+
+(* property C28 for the shipper: at every crash point of every sync of any history *)
+Lemma sync_visible_complete U L cs c st res :
+  wf_univ_b U = true -> after_syncs U L ([], None) cs = Some st ->
+  sync U L c (snd st) (fst st) = Some res ->
+  forall k, visible_complete (bapply_ops (fst st) (firstn k (r_ops res))).
+Proof.
+  intros Hwf Ha Hs k. apply wf_univ_b_spec in Hwf.
+  pose proof (after_syncs_good U L cs _ _ Hwf (good_empty U) Ha) as Hg.
+  destruct (sync_keeps_good U L c st res Hwf Hg Hs) as [_ [Hall _]].
+  apply (binv_visible U). apply Hall.
+  apply states_firstn_incl with (k := k). apply states_last.
+Qed.
